@@ -59,10 +59,14 @@ func genStreamSc(g *simrt.Tape, tier string) any {
 	case 3:
 		if sc.Max > 0 {
 			ov := &Oversize{Tail: g.Draw(64)}
-			switch g.Draw(4) {
+			switch g.Draw(6) {
 			case 0:
 				ov.Announce = uint32(sc.Max + 1 + g.Draw(16))
-			case 1:
+			case 4:
+				// the largest lengths a header can announce, aligned or not (a tree that allocates them dies of an
+				// out-of-memory fatal error, which is reported as <id>.process-killed)
+				ov.Announce = []uint32{0xFFFFFFFF, 0xFFFFFFF9, 0xFFFFFFF8, 0xFFFFFFF0, 0x80000000, 0x7FFFFFFF}[g.Draw(6)]
+			case 1, 5:
 				ov.Announce = 0x00800000 // 8 MiB: far above every limit used, yet harmless if a broken implementation allocates it
 			case 2:
 				ov.Announce = uint32(sc.Max) * 2
@@ -332,6 +336,13 @@ func streamFloorList(tier string) []*StreamSc {
 		ttlv.MarshalTTLV(ttlv.Value{Tag: 0x42007A, Value: []byte{}}),
 	}
 	plain := ttlv.MarshalTTLV(ttlv.Value{Tag: 0x420078, Value: ttlv.Struct{ttlv.Value{Tag: 0x420069, Value: int32(7)}}})
+	for _, ann := range []uint32{0xFFFFFFFF, 0xFFFFFFFC, 0xFFFFFFF9, 0xFFFFFFF8, 0xFFFFFFF0, 0x80000000, 0x7FFFFFFF, 0x00100001} {
+		for _, ch := range []int{simnet.ChunkByte, simnet.ChunkMax} {
+			for _, mx := range []int{64, 1 << 20} {
+				out = append(out, &StreamSc{Max: mx, Frames: []string{hex.EncodeToString(plain)}, Chunk: ch, Truncate: -1, Oversize: &Oversize{Announce: ann, Tail: 16}})
+			}
+		}
+	}
 	bad := spoil(ttlv.MarshalTTLV(ttlv.Value{Tag: 0x420078, Value: ttlv.Struct{ttlv.Value{Tag: 0x420069, Value: int32(9)}, ttlv.Value{Tag: 0x42006A, Value: "x"}}}))
 	for _, e := range append(empties, bad) {
 		for _, layout := range [][][]byte{{e}, {e, plain}, {plain, e}, {plain, e, plain}, {e, e}} {
